@@ -245,6 +245,105 @@ def generalise_opaque(e, keep):
     return go(e), len(fresh)
 
 
+def change_variables(g, keep):
+    """second, equally sound step for scaling claims whose minima are taken over quotients d_j / nv (QPSK, DPSK): substitute every
+    opaque distance v that occurs as a homogeneous-linear numerator of a division by a noise variance nv by v := q * nv with q fresh
+    (for nv > 0 every v has this form, so validity for all q implies validity for all v) and cancel (q nv)/nv = q.
+    The divisions disappear; what remains is bilinear (q * nv) with nv > 0."""
+    keep_ids = {v.get_id(): v for v in keep}
+
+    def denom_var(d):
+        if d.get_id() in keep_ids:
+            return d, None
+        if z3.is_app(d) and d.decl().kind() == z3.Z3_OP_MUL and d.num_args() == 2:
+            a, b = d.children()
+            if _is_num(a) and b.get_id() in keep_ids:
+                return b, a
+            if _is_num(b) and a.get_id() in keep_ids:
+                return a, b
+        return None, None
+
+    def is_opq(t):
+        return z3.is_const(t) and str(t).startswith("opq!")
+
+    def homog(n):
+        if is_opq(n):
+            return True
+        if not z3.is_app(n):
+            return False
+        dk = n.decl().kind()
+        ch = n.children()
+        if dk in (z3.Z3_OP_ADD, z3.Z3_OP_SUB, z3.Z3_OP_UMINUS):
+            return all(homog(c) for c in ch)
+        if dk == z3.Z3_OP_MUL:
+            non = [c for c in ch if not _is_num(c)]
+            return len(non) == 1 and homog(non[0])
+        return False
+
+    def vars_of(n, acc):
+        if is_opq(n):
+            acc.add(n)
+        for c in n.children():
+            vars_of(c, acc)
+        return acc
+
+    assign, seen, ok = {}, set(), [True]
+
+    def scan(t):
+        if t.get_id() in seen:
+            return
+        seen.add(t.get_id())
+        if z3.is_app(t) and t.decl().kind() == z3.Z3_OP_DIV:
+            kv, _ = denom_var(t.arg(1))
+            if kv is not None and homog(t.arg(0)):
+                for v in vars_of(t.arg(0), set()):
+                    if assign.setdefault(v.get_id(), kv).get_id() != kv.get_id():
+                        ok[0] = False
+                return
+        for c in t.children():
+            scan(c)
+
+    scan(g)
+    if not ok[0] or not assign:
+        return None
+    q = {}
+
+    def qvar(v):
+        return q.setdefault(v.get_id(), z3.Real("q!" + str(v)[4:]))
+
+    cache = {}
+
+    def inner(n):  # numerator with v -> q
+        if is_opq(n):
+            return qvar(n)
+        if n.num_args() == 0:
+            return n
+        return n.decl()(*[inner(c) for c in n.children()])
+
+    def go(t):
+        k = t.get_id()
+        if k in cache:
+            return cache[k]
+        if z3.is_app(t) and t.decl().kind() == z3.Z3_OP_DIV:
+            kv, coef = denom_var(t.arg(1))
+            if kv is not None and homog(t.arg(0)) and all(v.get_id() in assign for v in vars_of(t.arg(0), set())):
+                r = inner(t.arg(0))
+                if coef is not None:
+                    r = r / coef
+                cache[k] = r
+                return r
+        if is_opq(t) and k in assign:
+            r = qvar(t) * assign[k]
+        elif t.num_args() == 0:
+            r = t
+        else:
+            r = t.decl()(*[go(c) for c in t.children()])
+        cache[k] = r
+        return r
+
+    return go(g)
+
+
 def _try(ctx, name, g, note):
     """ctx.ensure on a candidate (generalised) claim; its record is kept only if z3 proved it"""
     real, tmp = ctx.acc, {}
@@ -291,6 +390,11 @@ def _prove(ctx, name, claims, how, keep=(), note="", stronger=None):
             if _try(ctx, name, g, (note + " | " if note else "") + "proved on the generalised claim: " + what):
                 done = True
                 break
+            if how == "opaque":
+                g2 = change_variables(g, keep)
+                if g2 is not None and _try(ctx, name, g2, (note + " | " if note else "") + "proved on the generalised claim: " + what + "; distances under a division by the noise variance rescaled (v = q * nv, nv > 0)"):
+                    done = True
+                    break
         if not done:
             ctx.ensure(name, claim, note=note)
 
